@@ -472,3 +472,225 @@ def s_fallback_ok(ev, state, node):
         # (facts recorded in st.pc while evaluating the body are instances of set_theory_axioms
         # about bound variables; they are not needed and are dropped)
     return SymVal(T.BOOL, F(*[v.term for v in vals]))
+
+
+def _is_node_native(t, level, node):
+    return level in t.hierarchy and node in t.nodes_at_level(level)
+
+
+@prims.spec_function('is_node', native=_is_node_native)
+def s_is_node(ev, state, node):
+    t, l, n = [ev.eval(state, a) for a in node.args]
+    return SymVal(T.BOOL, ISNODE(t.term, _name_arg(l), _name_arg(n)))
+
+
+# ---- read-only HDF5 marker cache: which groups exist ---------------------------------------------------
+# `with h5py.File(path, 'r') as f: ... key in f ...`  is modelled, for the functions of this area
+# only, as membership in an (unknown, fixed) set of names that is a function of the path value:
+# the file is opened read-only and nothing in the block writes to it.
+H5_READERS = {
+    'cell_type_mapper.type_assignment.utils.reconcile_taxonomy_and_markers',
+}
+
+
+def _h5_keys(path_val):
+    from ..values import canon
+    return canon(T.TSet(T.NAME), 'h5keys', path_val.term)
+
+
+def _h5_has_native(path, key):
+    import h5py
+    with h5py.File(path, 'r') as f:
+        return key in f
+
+
+@prims.spec_function('h5_has', native=_h5_has_native)
+def s_h5_has(ev, state, node):
+    from ..values import set_has
+    path, key = [ev.eval(state, a) for a in node.args]
+    return SymVal(T.BOOL, set_has(_h5_keys(path))[_name_arg(key)])
+
+
+def install_h5_reader():
+    """(re-)install the h5py.File handler on top of whatever handler is registered"""
+    prev = prims.QUALIFIED.get('h5py.File')
+    if getattr(prev, '_mc_reader', False):
+        return
+
+    def q_h5_file(ev, state, node):
+        if ev.ctx.qualname in H5_READERS and len(node.args) == 2 \
+                and isinstance(node.args[1], ast.Constant) and node.args[1].value == 'r':
+            path = ev.eval(state, node.args[0])
+            r = _h5_keys(path)
+            state.assume(*wf(r))
+            return r
+        if prev is not None:
+            return prev(ev, state, node)
+        raise Unsupported("h5py.File (no model for this use)")
+    q_h5_file._mc_reader = True
+    prims.QUALIFIED['h5py.File'] = q_h5_file
+
+
+install_h5_reader()
+
+
+# ---- HDF5 marker cache being written: ghost record of the per-group datasets -----------------------------
+# `with h5py.File(path, 'w'|'a') as f` is a handle (record MCH5File); `f.create_group(name)` a group
+# handle (record MCH5Group, field `grp_name`); `grp.create_dataset('reference'|'query', data=a)` stores
+# the integer array `a` under the group name in the ghost dictionaries `written_ref` /
+# `written_query` declared by the contract (ghost=dict(vars=...)); `f.create_dataset(name, data=a)`
+# with an integer array stores it in `written_top[name]`.  Nothing else about h5py is modelled
+# (HDF5 round trip: trusted, checked by the native layer which reads the file back).
+T.record('MCH5File', tag='Int')
+T.record('MCH5Group', grp_name='Name')
+H5_WRITERS = {
+    'cell_type_mapper.type_assignment.marker_cache_v2.write_query_markers_to_h5',
+}
+
+
+def _kwargs(ev, state, node, lenient_ok=True):
+    out = {}
+    for kw in node.keywords:
+        if kw.arg is None:
+            continue
+        try:
+            out[kw.arg] = ev.eval(state, kw.value)
+        except Unsupported:
+            if not ev.ctx.lenient:
+                raise
+            out[kw.arg] = None
+    return out
+
+
+def _ghost_store(ev, state, var, key_term, data):
+    from ..symexec import read_ref, write_ref
+    from ..values import dict_store
+    ref = state.env.get(var)
+    if ref is None or data is None or data.ty[0] not in ('arr', 'list') or data.ty[1] != T.INT:
+        return
+    cur = read_ref(state, ref)
+    write_ref(state, ref, dict_store(cur, key_term, data.term))
+
+
+def _m_file_create_dataset(ev, state, node, recv, ref):
+    name = ev.eval(state, node.args[0]) if node.args else None
+    kws = _kwargs(ev, state, node)
+    if name is not None and name.ty == T.NAME:
+        _ghost_store(ev, state, 'written_top', name.term, kws.get('data'))
+    return fresh(T.OPAQUE, 'dataset')
+
+
+def _m_file_create_group(ev, state, node, recv, ref):
+    name = coerce(ev.eval(state, node.args[0]), T.NAME)
+    ty = T.TRec('MCH5Group')
+    return SymVal(ty, T.ctor(ty)(name.term))
+
+
+def _m_group_create_dataset(ev, state, node, recv, ref):
+    name = ev.eval(state, node.args[0])
+    kws = _kwargs(ev, state, node)
+    grp = T.acc(recv.ty, 'grp_name')(recv.term)
+    if name.meta == ('const', 'reference'):
+        _ghost_store(ev, state, 'written_ref', grp, kws.get('data'))
+    elif name.meta == ('const', 'query'):
+        _ghost_store(ev, state, 'written_query', grp, kws.get('data'))
+    else:
+        raise Unsupported("dataset of a marker group other than 'reference' / 'query'")
+    return fresh(T.OPAQUE, 'dataset')
+
+
+ghost.METHODS[('MCH5File', 'create_dataset')] = _m_file_create_dataset
+ghost.METHODS[('MCH5File', 'create_group')] = _m_file_create_group
+ghost.METHODS[('MCH5Group', 'create_dataset')] = _m_group_create_dataset
+
+
+def install_h5_writer():
+    prev = prims.QUALIFIED.get('h5py.File')
+    if getattr(prev, '_mc_writer', False):
+        return
+
+    def q_h5_file_w(ev, state, node):
+        if ev.ctx.qualname in H5_WRITERS and len(node.args) == 2 \
+                and isinstance(node.args[1], ast.Constant) and node.args[1].value in ('w', 'a'):
+            ev.eval(state, node.args[0])
+            return fresh(T.TRec('MCH5File'), 'h5file')
+        if prev is not None:
+            return prev(ev, state, node)
+        raise Unsupported("h5py.File (no model for this use)")
+    q_h5_file_w._mc_writer = True
+    q_h5_file_w._mc_reader = getattr(prev, '_mc_reader', False)
+    prims.QUALIFIED['h5py.File'] = q_h5_file_w
+
+
+install_h5_writer()
+
+
+# ---- named predicates: a clause text given a name ("definition hiding") ------------------------------
+# A predicate NAME(args) is an uninterpreted boolean function together with the axiom
+# `forall args. NAME(args) == <clause text over the argument names>`, triggered by applications of
+# NAME only.  Invariants and post-conditions can then carry NAME(...) across state changes by
+# congruence, and unfold it where it is established / used.  The native twin evaluates the same text.
+def define_predicate(name, arg_names, arg_types, text, helpers=None):
+    tys = [T.parse_type(t) for t in arg_types]
+    fn = z3.Function('pred_' + name, *([T.sort_of(t) for t in tys] + [z3.BoolSort()]))
+
+    def native(*args):
+        from .. import native as N
+        env = dict(N.HELPERS)
+        env.update(prims.NATIVE_SPEC)
+        env.update(helpers or {})
+        env.update(dict(zip(arg_names, args)))
+        return bool(eval(text, env))
+
+    def sym(ev, state, node):
+        from ..engine import State
+        vals = [coerce(ev.eval(state, a), ty) for a, ty in zip(node.args, tys)]
+        done = getattr(ev.ctx, '_mc_axioms', None)
+        if done is None:
+            done = ev.ctx._mc_axioms = set()
+        if ('pred', name) not in done:
+            done.add(('pred', name))
+            consts = [SymVal(ty, z3.Const(f'pd!{name}!{nm}', T.sort_of(ty))) for nm, ty in zip(arg_names, tys)]
+            st = State()
+            st.pc = []
+            for nm, c in zip(arg_names, consts):
+                st.ghost[nm] = c
+            ev.ctx.spec_mode += 1
+            try:
+                body = truth(ev.eval(st, ast.parse(text, mode='eval').body))
+            finally:
+                ev.ctx.spec_mode -= 1
+            app = fn(*[c.term for c in consts])
+            ev.ctx.axioms.append(z3.ForAll([c.term for c in consts], app == body, patterns=[app]))
+        return SymVal(T.BOOL, fn(*[v.term for v in vals]))
+    prims.spec_function(name, native=native)(sym)
+    return text
+
+
+# group_ok: the `reference` / `query` arrays (wr, wq) written for a group that lists the genes `lst`,
+# given the reference and query gene lists R, Qn  (C08.c)
+GROUP_OK_DEF = define_predicate(
+    'group_ok', ['lst', 'R', 'Qn', 'wr', 'wq'],
+    ['List[Name]', 'List[Name]', 'List[Name]', 'Arr[Int]', 'Arr[Int]'],
+    "len(wr) == len(lst) and len(wq) == len(lst) and "
+    # valid column indices, paired by gene NAME
+    "all(0 <= wr[i] < len(R) and 0 <= wq[i] < len(Qn) and R[wr[i]] == Qn[wq[i]] for i in range(len(lst))) and "
+    # exactly the genes listed for the group
+    "all(R[wr[i]] in lst for i in range(len(lst))) and "
+    "all(any(R[wr[i]] == g for i in range(len(lst))) for g in lst) and "
+    # co-sorted by (pairwise distinct) reference index
+    "sorted_strict(wr)")
+
+
+# stored_ok: the arrays written for a group whose (validated) marker list is `lst`: they index, by
+# name, exactly the genes of `lst` that occur in the query, co-sorted by reference index  (C08.b/c)
+STORED_OK_DEF = define_predicate(
+    'stored_ok', ['lst', 'R', 'Qn', 'wr', 'wq'],
+    ['List[Name]', 'List[Name]', 'List[Name]', 'Arr[Int]', 'Arr[Int]'],
+    "len(wr) == len(wq) and "
+    "all(0 <= wr[i] < len(R) and 0 <= wq[i] < len(Qn) and R[wr[i]] == Qn[wq[i]] for i in range(len(wr))) and "
+    "all(R[wr[i]] in lst for i in range(len(wr))) and "
+    "all(any(R[wr[i]] == g for i in range(len(wr))) for g in lst if g in Qn) and "
+    "sorted_strict(wr)")
+
+H5_WRITERS.add('cell_type_mapper.type_assignment.marker_cache_v2.create_marker_cache_from_specified_markers')
